@@ -89,7 +89,21 @@ fn main() {
         };
         let known = engine::load_known(&verif_dir);
         let open = known.iter().filter(|k| k.property == id && k.status == "open").map(|k| k.key.clone()).collect();
-        let (f, descr) = engine::replay_case(&prop, &data, &open);
+        // artifacts of the libFuzzer `decode` target are raw decoder inputs, not choice sequences
+        let raw_decoder_input = id == "C06" && args[2].contains("-fuzz-");
+        let (f, descr) = if raw_decoder_input {
+            let mut ctx = engine::Ctx::new(&open);
+            ctx.strict = true;
+            let out = engine::guard(|| props::c06::judge_decode(&data, &mut ctx));
+            let f = match out {
+                Ok(engine::Outcome::Fail(f)) => Some(f),
+                Ok(_) => None,
+                Err(p) => Some(engine::Failure { sub: "harness".into(), key: "C06/uncaught-panic".into(), msg: p }),
+            };
+            (f, Some(format!("raw decoder input {}", envverif::cbor::diag_bytes(&data))))
+        } else {
+            engine::replay_case(&prop, &data, &open)
+        };
         if let Some(d) = descr {
             println!("case: {}", d);
         }
